@@ -71,12 +71,13 @@ def run(rep, tier, seed, budget):
     K3 = ["c", "n", "[nH]", "o"] if quick else K2
     plan.append(("fused 5-5 and 5-7 systems", lambda: make_slots("s", ["c1", K3, K3, "c2", K3, K3, ["", "cc", "c"], K3, "c2", ["1", "c1"]]), {"skeleton": "c1??c2??(|c|cc)?c2(|c)1", "kinds": K3}))
 
-    for name, mk, bounds in plan:
-        left = t_end - time.time()
-        if left < 4:
-            rep.parts.append({"name": name, "complete": False, "paths": 0, "bounds": bounds, "claim": "not started (time budget)"})
-            continue
-        rt.explore(rep, ctx, name, mk, jf, bounds, left * 0.35, table_mode="relaxed", kind="kekulize", strict=True)
+    def run_templates():
+        for name, mk, bounds in plan:
+            left = t_end - time.time()
+            if left < 4:
+                rep.parts.append({"name": name, "complete": False, "paths": 0, "bounds": bounds, "claim": "not started (time budget)"})
+                continue
+            rt.explore(rep, ctx, name, mk, jf, bounds, left * 0.4, table_mode="relaxed", kind="kekulize", strict=True)
 
     # order independence: every base system in many atom orders; acceptance must agree with the base spelling
     bases = BASES + ([] if quick else [C60])
@@ -105,7 +106,7 @@ def run(rep, tier, seed, budget):
 
     left = t_end - time.time()
     if left > 4:
-        res = driver.explore_parallel(order_path, left * 0.6)
+        res = driver.explore_parallel(order_path, left * 0.25)
         rep.add_part("order independence: %d aromatic systems x start atom x neighbour order" % len(bases), res,
                      {"bases": [b[:40] for b in bases], "start": "every atom (every 3rd for > 24 atoms in quick)", "flip": [0, 1], "rot": "0..%d" % (1 if quick else 2)})
 
@@ -140,8 +141,9 @@ def run(rep, tier, seed, budget):
         if left < 4:
             rep.parts.append({"name": name, "complete": False, "paths": 0, "bounds": {"n": NMATCH}, "claim": "not started (time budget)"})
             continue
-        res = driver.explore_parallel(match_path, left * 0.8)
+        res = driver.explore_parallel(match_path, left * (0.25 if quick else 0.4))
         rep.add_part(name, res, {"nodes": NMATCH, "max_degree": 3})
+    run_templates()
     rep.assumptions += ["'needs a pi bond' is decided by an independent rule for the standard kinds only (c, n, o, s, p, [nH], substituted n, [n+], [cH]); atoms of other kinds are only required to receive at most one double bond",
                         "encoder run with strict=True under the relaxed table of the dataset test; a rejection counts as wrong only if the system is kekulizable by the independent rule and no atom would exceed its capacity",
                         "order independence: acceptance of each respelling must equal acceptance of the base spelling and each accepted respelling must be a correct assignment (two different Kekule forms are not a disagreement)",
